@@ -27,7 +27,9 @@ TMalformed == IsEvent("Malformed") /\ ~Ev.crashed /\ ~Ev.hung /\ UNCHANGED dummy
 (* the process running the library died (a panic in one of its goroutines) or hung: never a behaviour *)
 TCrash == IsEvent("Crash") /\ FALSE
 (* the mechanism log of the schedule: judged by AgwpeTrace.tla *)
+(* the transmit log of the schedule: judged by AgwpeTxTrace.tla *)
+TTxLog == IsEvent("TxLog") /\ UNCHANGED dummy /\ Consume
 TMech == IsEvent("Mech") /\ UNCHANGED dummy /\ Consume
-TraceNext == TMech \/ TCrash \/ TApi \/ TReads \/ TTncData \/ TExchange \/ TMalformed
+TraceNext == TTxLog \/ TMech \/ TCrash \/ TApi \/ TReads \/ TTncData \/ TExchange \/ TMalformed
 TraceSpec == TraceInit /\ [][TraceNext]_<<dummy, tvars>>
 =============================================================================
